@@ -61,6 +61,13 @@ func TestCheck(t *testing.T) {
 			}
 		}
 	}
+	// phase 1: deterministic self-deadlock pass (Engine B, serial, nothing else of the code under test is running)
+	for _, tg := range sel {
+		if tg.deadlockPass {
+			e.deadlockPass(tg)
+		}
+	}
+	e.timerRacePass()
 	// isolated parts (child processes, mostly waiting on loopback round trips) run alongside the in-process parts
 	isoDone := make(chan struct{})
 	go func() {
@@ -97,6 +104,15 @@ func replay(run *report.Run, e *engine, ts []*target) int {
 		fmt.Println("HARNESS-ERROR replay file has no target/input_hex")
 		return 2
 	}
+	if strings.Contains(name, "|| restart timer expiry") { // Engine B two-thread part: re-explore it
+		*report.FlagPart = name
+		e.timerRacePass()
+		e.reportViolations()
+		if run.NumViolations() == 0 {
+			fmt.Println("replay: no interleaving of", name, "fails")
+		}
+		return run.Finish()
+	}
 	var tg *target
 	for _, x := range ts {
 		if x.name == name {
@@ -114,6 +130,32 @@ func replay(run *report.Run, e *engine, ts []*target) int {
 				k = "panic"
 			}
 			e.record(k, tg, nil, p.site, p.msg, p.stack)
+			e.reportViolations()
+			return run.Finish()
+		}
+	}
+	if tg.deadlockPass {
+		var ctx any
+		var cleanup func()
+		if tg.newCtx != nil {
+			ctx, cleanup = tg.newCtx()
+		}
+		cp := make([]byte, len(in))
+		copy(cp, in)
+		_, p, dead, _ := engineBCall(tg, ctx, cp)
+		if cleanup != nil {
+			cleanup()
+		}
+		if dead != nil {
+			e.record("hang", tg, in, dead.site, dead.msg, dead.stack)
+		} else if p != nil && !p.harness {
+			k := p.kind
+			if k == "" {
+				k = "panic"
+			}
+			e.record(k, tg, in, p.site, p.msg, p.stack)
+		}
+		if dead != nil || p != nil {
 			e.reportViolations()
 			return run.Finish()
 		}
@@ -151,7 +193,11 @@ func replay(run *report.Run, e *engine, ts []*target) int {
 				e.record(k, tg, in, p.site, p.msg, p.stack)
 			}
 		case <-time.After(2 * hangCap):
-			e.record("hang", tg, in, "hang in "+tg.entry, "call did not return within 20 s", "")
+			if st := e.confirmHang(tg, in); st == "running" {
+				e.record("hang", tg, in, "hang in "+tg.entry, "call still computing after 30 s: non-terminating loop", "")
+			} else if st == "blocked" {
+				fmt.Println("HARNESS-ERROR replay: call blocked, not decided by the wall clock")
+			}
 		}
 		if cleanup != nil {
 			cleanup()
